@@ -4,8 +4,11 @@ CONSTANTS
   Vals <- MCVals
   Cumulative = @CUMULATIVE@
   MaxSteps = @MAXSTEPS@
+  NoSum = @NOSUM@
+  NoMinMax = @NOMINMAX@
+  OutVariant = "@VARIANT@"
 VIEW View
 ACTION_CONSTRAINT EmitEdge
-INVARIANT Inv
+INVARIANTS Inv ReportIndep
 PROPERTIES CountsGrow
 CHECK_DEADLOCK FALSE
